@@ -2,7 +2,7 @@
    PARSENUM_EX4 / PARSENUM_EX6 (PARSENUM2/4 are the base-0, no-trailing instances), with the type of
    the target variable *x as a parameter.  errno is a value threaded through. *)
 From Coq Require Import NArith ZArith List Bool.
-From LCP Require Import Base.CheckedMem Util.ParsenumSpec Util.Strto.
+From LCP Require Import Base.CheckedMem Util.ParsenumSpec Util.Strto Util.ParsenumFloat.
 Import ListNotations.
 Local Open Scope Z_scope.
 Local Open Scope res_scope.
@@ -68,14 +68,27 @@ Definition parsenum_unsigned_m (buf : list N) (min max tmax base : Z) (trailing 
     if (c =? 45)%N then Ok (val, ERange) else Ok (val, err)
   else Ok (val, err).
 
-(* strtod is not modelled: its result on the given string is data *)
-Inductive fclass := FFinite | FInf | FNan.
+(* strtod is not modelled: its result on the given string is data.  The double it returned is given
+   by its 64-bit pattern (Util/ParsenumFloat.v decodes it). *)
 Record strtod_res := {
   sd_consumed : nat;      (* eptr - s *)
   sd_erange : bool;       (* strtod itself set errno = ERANGE (overflow / underflow) *)
   sd_lt_min : bool;       (* val < min *)
   sd_gt_max : bool;       (* val > max *)
-  sd_class : fclass }.
+  sd_bits : Z }.          (* val, as the pattern of a binary64 *)
+Definition sd_class (sd : strtod_res) : fclass := class_of (decode64 (sd_bits sd)).
+
+(* the two comparisons agree with the value and the bounds (double)(min), (double)(max), themselves
+   given as binary64 patterns *)
+Definition sd_consistent (fmin fmax : Z) (sd : strtod_res) : Prop :=
+  sd_lt_min sd = fval_ltb (decode64 (sd_bits sd)) (decode64 fmin) /\
+  sd_gt_max sd = fval_ltb (decode64 fmax) (decode64 (sd_bits sd)).
+(* strtod's answer with the comparisons computed *)
+Definition mk_sd (consumed : nat) (erange : bool) (bits fmin fmax : Z) : strtod_res :=
+  {| sd_consumed := consumed; sd_erange := erange;
+     sd_lt_min := fval_ltb (decode64 bits) (decode64 fmin);
+     sd_gt_max := fval_ltb (decode64 fmax) (decode64 bits);
+     sd_bits := bits |}.
 
 (* static inline double parsenum_float(s, min, max, trailing): the errno it leaves *)
 Definition parsenum_float_m (buf : list N) (sd : strtod_res) (trailing : bool) : res errno :=
@@ -85,7 +98,8 @@ Definition parsenum_float_m (buf : list N) (sd : strtod_res) (trailing : bool) :
   else if sd_lt_min sd || sd_gt_max sd then Ok ERange
   else Ok err.
 
-(* what the macro leaves behind: errno and the value of *x (integers; for floats *x is strtod's value) *)
+(* what the macro leaves behind: errno and the value of *x (integers: the value; floating targets: the
+   bit pattern of *x, which is strtod's double converted to the type of *x - a float target narrows) *)
 Record outcome := { o_errno : errno; o_stored : Z }.
 
 (* PARSENUM_EX6(x, s, min, max, base, trailing): min and max are the values of the integer
@@ -94,7 +108,9 @@ Definition parsenum_ex6 (t : ctype) (buf : list N) (min max base : Z) (trailing 
            (sd : strtod_res) : res outcome :=
   if class_float t then
     if base =? 0 then
-      let* e := parsenum_float_m buf sd trailing in Ok {| o_errno := e; o_stored := 0 |}
+      (* ( *x) = parsenum_float(...): assigned whatever errno is *)
+      let* e := parsenum_float_m buf sd trailing in
+      Ok {| o_errno := e; o_stored := fstore (cw t) (sd_bits sd) |}
     else AssertFail
   else if class_signed t then
     let x := store t (-1) in
@@ -117,7 +133,9 @@ Definition parsenum_ex4 (t : ctype) (buf : list N) (base : Z) (trailing : bool)
            (sd : strtod_res) : res outcome :=
   if class_float t then
     if base =? 0 then
-      let* e := parsenum_float_m buf sd trailing in Ok {| o_errno := e; o_stored := 0 |}
+      (* ( *x) = parsenum_float(...): assigned whatever errno is *)
+      let* e := parsenum_float_m buf sd trailing in
+      Ok {| o_errno := e; o_stored := fstore (cw t) (sd_bits sd) |}
     else AssertFail
   else if class_unsigned t then
     let x := store t (-1) in
